@@ -84,7 +84,7 @@ pub fn authorize(v: &J) -> Result<J, String> {
     let core_auth = Authorizer::new();
     let core_pset: &ast::PolicySet = pset.as_ref();
     let resp = core_auth.is_authorized(q.clone(), core_pset, &es);
-    let mut reasons: Vec<String> = resp.diagnostics.reason.iter().map(|i| i.to_string()).collect();
+    let mut reasons: Vec<String> = resp.diagnostics.reason.iter().map(|i| { let s: &str = i.as_ref(); s.to_string() }).collect();
     reasons.sort();
     let mut errors: Vec<(String, &'static str)> = resp
         .diagnostics
@@ -92,7 +92,7 @@ pub fn authorize(v: &J) -> Result<J, String> {
         .iter()
         .map(|e| match e {
             cedar_policy_core::authorizer::AuthorizationError::PolicyEvaluationError { id, error } => {
-                (id.to_string(), render::eval_err(error))
+                ({ let s: &str = id.as_ref(); s.to_string() }, render::eval_err(error))
             }
         })
         .collect();
@@ -102,13 +102,13 @@ pub fn authorize(v: &J) -> Result<J, String> {
     let api_q = cedar_policy::Request::from(q);
     let api_es = cedar_policy::Entities::from(es);
     let api = API_AUTHORIZER.with(|a| a.is_authorized(&api_q, &pset, &api_es));
-    let mut api_reasons: Vec<String> = api.diagnostics().reason().map(|i| i.to_string()).collect();
+    let mut api_reasons: Vec<String> = api.diagnostics().reason().map(|i| { let s: &str = i.as_ref(); s.to_string() }).collect();
     api_reasons.sort();
     let mut api_errors: Vec<String> = api
         .diagnostics()
         .errors()
         .map(|e| match e {
-            cedar_policy::AuthorizationError::PolicyEvaluationError(pe) => pe.policy_id().to_string(),
+            cedar_policy::AuthorizationError::PolicyEvaluationError(pe) => { let s: &str = pe.policy_id().as_ref(); s.to_string() }
         })
         .collect();
     api_errors.sort();
